@@ -187,6 +187,9 @@ func main() {
 		results = append(results, r)
 		if *verbose {
 			fmt.Fprintf(os.Stderr, "[%s] %d paths, %d queries %s\n", fc.Key, len(r.Paths), len(r.Queries), r.Err)
+			for _, n := range r.Notes {
+				fmt.Fprintf(os.Stderr, "      note: %s\n", n)
+			}
 		}
 	}
 	for _, l := range lemmas {
@@ -452,7 +455,11 @@ func report(e *Engine, prop, tier string, seed int, verif string, results []*Fun
 	if len(violations) > 0 && exit != 2 {
 		os.MkdirAll(replayDir, 0o755)
 		for _, o := range violations {
-			rp := filepath.Join(replayDir, sanitize(o.Name)+".json")
+			short := o.Name
+			if i := strings.Index(short, "["); i >= 0 {
+				short = short[:i]
+			}
+			rp := filepath.Join(replayDir, fmt.Sprintf("%s_%08x.json", sanitize(short), fnv32(o.Name)))
 			suffix := ""
 			replayed := tryReplay(e, verif, prop, o, rp)
 			if !replayed {
@@ -477,6 +484,11 @@ func report(e *Engine, prop, tier string, seed int, verif string, results []*Fun
 		fc := e.cs.Funcs[k]
 		if fc.Used && (fc.Trusted) {
 			trusted = append(trusted, "trusted contract (assumed, body not examined): "+fc.Key)
+		}
+		if fc.Used {
+			for _, c := range fc.TrustedEnsures {
+				trusted = append(trusted, "assumed postcondition of "+fc.Key+" (not checked against the body): "+c.Text)
+			}
 		}
 	}
 	for _, a := range e.cs.Axioms {
